@@ -3,16 +3,35 @@ from cvsym import checklib as CL
 def _zero(I, a): return 0
 STUBS = [('_ZN14colvarbias_abf11calc_energyE', _zero), ('_ZNK20colvar_grid_gradient9grid_rmsd', _zero)]
 FNS = ['h_c14_abf1d', 'h_c14_abf2d']
+# std::filesystem (current_path, path::operator/) lives in libstdc++.so, not in the IR: the two path helpers of colvarproxy_io are modelled
+def _mk_string(I, sret, bs):
+    n = len(bs)
+    if n < 16:
+        I.store(sret, (sret[0], sret[1] + 16), 8); I.store((sret[0], sret[1] + 8), n, 8)
+        I.write_bytes((sret[0], sret[1] + 16), list(bs) + [0])
+    else:
+        buf = I.alloc(n + 1, 'std::string', 'heap'); I.write_bytes(buf, list(bs) + [0])
+        I.store(sret, buf, 8); I.store((sret[0], sret[1] + 8), n, 8); I.store((sret[0], sret[1] + 16), n, 8)
+def _get_string(I, p):
+    ptr = I.load(p, 8, 'ptr'); n = I.load((p[0], p[1] + 8), 8, 'i64')
+    return I.read_bytes(ptr, n) if n else []
+def _cwd(I, a):
+    _mk_string(I, a[0], list(b'/w')); return None
+def _join(I, a):
+    _mk_string(I, a[0], _get_string(I, a[2]) + [ord('/')] + _get_string(I, a[3])); return None
+STUBS_META = [('_ZNK14colvarproxy_io20get_current_work_dir', _cwd), ('_ZNK14colvarproxy_io10join_paths', _join)]
 def groups(tier):
     b = {'walkers': '2 and 3 walkers, each a separate proxy + module instance in one address space (the static module pointer is switched between them)',
          'history': 'two rounds of (1-2 steps per walker in different bins, exchange); walkers take different numbers of steps; arbitrary real coordinates inside the bins and arbitrary total forces',
          'restart': 'no walker / walker 0 / walker 1 stopped after the first exchange, saved (text state), destroyed and resumed in a fresh instance, replaying the step of its state',
          'grids': '1 variable x 4 bins; 2 variables x 2 x 2 bins (gradient multiplicity 2)'}
-    return [CL.Group('C14_shared.cpp', [f], setup=['h_c14_setup'], bounds=b, stubs=STUBS, max_paths=100, path_time=280, total_time=1500, ext={'div_zero': 'fork'}, diff=True) for f in FNS]
+    b['metadynamics'] = '2 walkers, multipleReplicas with grids (1 variable x 4 bins), hills at every step, exchanges at steps 0, 2, 4; walker 1 re-reads walker 0 before / between / after walker 0 rewrites its state file and empties its hills buffer (enumerated); a walker joining late reads the peer for the first time between / after these two operations; arbitrary real positions inside fixed bins'
+    meta = [CL.Group('C14_meta.cpp', ['h_c14m_exchange', 'h_c14m_latejoin'], setup=['h_c14m_setup'], bounds=b, stubs=STUBS_META, max_paths=60, path_time=280, total_time=1200, diff=False)]
+    return meta + [CL.Group('C14_shared.cpp', [f], setup=['h_c14_setup'], bounds=b, stubs=STUBS, max_paths=100, path_time=280, total_time=1500, ext={'div_zero': 'fork'}, diff=True) for f in FNS]
 MANIFEST = {
  'level_text': 'Bounded symbolic model checking of the real shared-ABF exchange (colvarbias_abf::replica_share(), delta_grid / add_grid / copy_grid / raw_data_in / raw_data_out of the grids, write/read of the state with local and shared grids) between 2-3 walker instances running the real update() on arbitrary real coordinates and total forces. The engine interface of each walker is a message queue; a walker that waits for the combined data before walker 0 has run receives placeholder symbols that are bound to the message walker 0 later sends, so that the walkers of one exchange run one after the other (the protocol has a barrier after each exchange, so the order of the walkers within an exchange is the only interleaving there is). The harness keeps its own ledger from snapshots it takes itself (what each walker added between exchanges); after every exchange, for every walker and every grid entry: shared gradient sums and counts equal the sum over walkers of their contributions, each counted once; the walker\'s local grids equal its own contributions; all messages are consumed and message sizes agree.',
- 'level_note': 'exchange protocol order fixed by its barrier; 2 exchanges; ramp parameters large so that the ABF force is zero; integration of the PMF off; grid_rmsd (log message) and calc_energy stubbed. Outside: CZAR/eABF sharing (replica_share_CZAR), multiple-walker metadynamics (file-based hill exchange, truncated peer files), absent or slow peers, more than 3 walkers.',
+ 'level_note': 'exchange protocol order fixed by its barrier; 2 exchanges; ramp parameters large so that the ABF force is zero; integration of the PMF off; grid_rmsd (log message) and calc_energy stubbed. Multiple-walker metadynamics: two walker instances exchange hills through the real files (registry, list, state and hills buffer files on the in-memory file-system model; std::filesystem path helpers modelled): after every exchange the view a walker has of its peer (mirror grid + explicit hills not yet projected, evaluated at every bin centre) must equal the sum of the hills the peer made known so far, each once, for the three points at which the reader can synchronise relative to the peer rewriting its state file and emptying its hills buffer. Four known findings (hills written after a buffer reopening are not read until the next state of the peer) are recorded in known_findings.json. Outside: CZAR/eABF sharing (replica_share_CZAR), peer files truncated at arbitrary bytes, absent peers, more than 3 walkers (ABF) / 2 walkers (metadynamics).',
  'technique': 'symbolic execution of LLVM IR through the public API + SMT (z3): several module instances, message-passing stub with prophecy placeholders, ledger invariants over symbolic histories',
  'design_ref': 'DESIGN.md 5/C14'}
 def run():
-    CL.main('C14', groups, '', ['operator new never fails', 'the exchange protocol is synchronous (barrier after each exchange)'], ['multiple-walker metadynamics', 'CZAR sharing', 'truncated peer files'], MANIFEST['technique'])
+    CL.main('C14', groups, '', ['operator new never fails', 'the exchange protocol is synchronous (barrier after each exchange)'], ['CZAR sharing', 'peer files truncated at arbitrary bytes'], MANIFEST['technique'])
